@@ -101,7 +101,23 @@ fn alias_keys(f: &FieldTy) -> Vec<String> {
         f.key.to_uppercase(),
         f.key.to_lowercase(),
         format!(" {}", f.key),
+        format!("{} ", f.key),
+        format!("{}[]", f.key),
+        format!("{}[0]", f.key),
+        format!("{}.", f.key),
     ]
+    .into_iter()
+    // the key decorated with the short non-alphanumeric literals of deserr's own sources ("[]", ".", "$" ...):
+    // a suffix- or prefix-stripping feature writes its literal into the source
+    .chain(
+        dv_core::genp::dict()
+            .strs
+            .iter()
+            .filter(|d| !d.is_empty() && d.len() <= 3 && !d.chars().any(|c| c.is_alphanumeric()))
+            .take(12)
+            .flat_map(|d| [format!("{}{d}", f.key), format!("{d}{}", f.key)]),
+    )
+    .collect()
 }
 
 // =======================================================================================
